@@ -55,8 +55,8 @@ TEMPLATES = {
 
 def budget(tier):
     if tier == "quick":
-        return {"runs": 100000, "chunk": 400, "wall_cap": 300.0, "det_sample": 8}
-    return {"runs": 600000, "chunk": 400, "wall_cap": 3300.0, "det_sample": 40}
+        return {"runs": 100000, "chunk": 400, "wall_cap": 400.0, "det_sample": 8}
+    return {"runs": 4000000, "chunk": 800, "wall_cap": 3300.0, "det_sample": 40}
 
 
 def gen_plan(r, tier, index):
